@@ -53,6 +53,9 @@ def run(ctx):
     # reg.Allocation on partial allocations (c20allocn.go)
     floors.update({"alook": 4000, "accept-alookup": 2500, "amerge": 400, "alook:physical": 500, "alook:virtual-with-entry": 1500,
                    "alook:virtual-without-entry": 1200, "alook:virtual-without-entry-index-below-physical-count": 500})
+    # lookups with an index >= 256 whose low byte is a real register index of the kind (Family.Lookup, LookupPhysical, LookupID,
+    # Allocation.LookupRegister): must all answer nil
+    floors.update({"lookup:index-folds-to-real-register-mod-256": 9000})
     floors.update({"proc:compiled-ok:" + shape: 1 for shape in ("gp", "vec", "k", "all", "sp", "h8", "k0")})
     floors.update({"ctxh:straddle:" + name: 16 for name in (
         "Function", "TEXT", "Implement", "SignatureExpr", "Signature", "Attributes", "Doc", "Pragma", "Label", "Comment", "AllocLocal",
@@ -104,6 +107,8 @@ def run(ctx):
         "caller sees (kind, rank of the id within the kind, mask) with the state machine of Model/RegCtx.lean (whose only effect on the "
         "collection is Coll.alloc) and acceptor CtxFreshOK on the implementation's own ids per kind (theorems ctx_fresh, ctx_fresh_ok, "
         "ctx_others_irrelevant for ALL histories). "
+        "FOLDING INDICES: for every real index k of every kind the indices k+256, k+512, k+65280 and 255, 256, 65535 x 18 specs through "
+        "Family.Lookup, LookupPhysical, LookupID and (specs of the kind) Allocation.LookupRegister with an entry naming such an id: all nil. "
         "PARTIAL ALLOCATIONS (alook / accept-alookup / amerge): reg.Allocation.LookupRegister / LookupDefault / LookupRegisterDefault and "
         "operand.ApplyAllocation (register operand, base of a memory operand) for virtual registers of every kind x spec x index 0..40, 255, 256, "
         "1000, 65535 and every physical register x allocations that are empty / partial without the id (but with the same index number in "
